@@ -261,3 +261,63 @@ package rules
 //@   option safety off
 //@   requires r != nil && profileID != nil && profile != nil
 //@   ghost at call ProfileChainName: check arg2 == old(r.nft)
+
+//@ -- ---------------------------------------------------------------- C10: dispatch by interface name
+//@ -- (thin) Every dispatch rule pairs a match on an interface name with the action for THAT name: the tree
+//@ -- builder asks its callbacks for match and action with the same name (and the given chain prefix), a prefix
+//@ -- rule matches exactly prefix+wildcard; the callbacks jump to the endpoint chain of the name they were given;
+//@ -- the nftables verdict maps send each interface to its own from-/to-chain; workload dispatch ends in a deny
+//@ -- rule; host dispatch gets end rules only when a wildcard host endpoint is configured.
+//@ ghost c10Name string
+//@ ghost c10Chain string
+//@ ghost c10Deny bool
+//@ func (*DefaultRuleRenderer).buildSingleDispatchChainTree
+//@   property C10
+//@   option safety off
+//@   option mathint
+//@   option stable (*DefaultRuleRenderer).wildcard
+//@   option callpre off
+//@   requires r != nil
+//@   ghost at call getMatchForEndpoint: c10Name = arg0
+//@   ghost at call getActionForEndpoint: check arg0 == endpointPfx && arg1 == c10Name
+//@   ghost at call GoTo: check c10Name == prefix + old(r.wildcard)
+//@ func (*DefaultRuleRenderer).interfaceNameDispatchChains$1
+//@   property C10
+//@   option safety off
+//@   option callpre off
+//@   ghost at call InInterface: check arg1 == name
+//@ func (*DefaultRuleRenderer).interfaceNameDispatchChains$2
+//@   property C10
+//@   option safety off
+//@   option callpre off
+//@   ghost at call EndpointChainName: check arg0 == pfx && arg1 == name ; c10Chain = res
+//@   ghost at call GoTo: check arg1 == c10Chain
+//@ func (*DefaultRuleRenderer).interfaceNameDispatchChains$3
+//@   property C10
+//@   option safety off
+//@   option callpre off
+//@   ghost at call OutInterface: check arg1 == name
+//@ func (*DefaultRuleRenderer).interfaceNameDispatchChains$4
+//@   property C10
+//@   option safety off
+//@   option callpre off
+//@   ghost at call EndpointChainName: check arg0 == pfx && arg1 == name ; c10Chain = res
+//@   ghost at call GoTo: check arg1 == c10Chain
+//@ func (*DefaultRuleRenderer).DispatchMappings
+//@   property C10
+//@   option safety off
+//@   option callpre off
+//@   ghost at call EndpointChainName#1: check arg0 == WorkloadFromEndpointPfx && arg1 == old(endpoint.Name)
+//@   ghost at call EndpointChainName#2: check arg0 == WorkloadToEndpointPfx && arg1 == old(endpoint.Name)
+//@ func (*DefaultRuleRenderer).WorkloadDispatchChains
+//@   property C10
+//@   option safety off
+//@   option callpre off
+//@   requires !c10Deny
+//@   ghost at call IptablesFilterDenyAction: c10Deny = true
+//@   ghost at call interfaceNameDispatchChains: check c10Deny && arg2 == WorkloadFromEndpointPfx && arg3 == WorkloadToEndpointPfx && arg6 == arg7 && len(arg6) == 1
+//@ func (*DefaultRuleRenderer).hostDispatchChains
+//@   property C10
+//@   option safety off
+//@   option callpre off
+//@   ghost at call interfaceNameDispatchChains: check defaultIfaceName == "" ==> (len(arg6) == 0 && len(arg7) == 0)
